@@ -17,16 +17,17 @@ unconditional transfer in the same sequence (`SL.elide`), and renumbers entity o
   unobservable (`elision_unobservable`, `elision_unobservable_calls`); **renumbering** of functions
   (any permutation of the index space), of types (de-duplication, sorting), of the locals of each
   function (compaction: locals a body never names may disappear) and the rewriting of block types
-  to another form of the same arity are unobservable at the level of calls
-  (`renumbering_unobservable_calls`): the interpreter names functions and locals by *uid*, the
-  renumbering changes the index ↦ uid tables and the operands in the bodies, and every call
-  returns, traps, traces and leaves the store exactly as before.
+  to another form of the same arity are unobservable (`renumbering_unobservable_calls`, and at the
+  level of the whole observation `round_trip_unobservable`, which also covers the renumbered
+  exports, start function, element items and `ref.func` constants): the interpreter names
+  functions and locals by *uid*, the renumbering changes the index ↦ uid tables and the operands,
+  and every call returns, traps, traces and leaves the store exactly as before.
 * **Tie to the code, checked on every case**: the driver request `elidetie` compares the bodies of
   walrus's real output with `SL.elide` of the real input's bodies (modulo operand renumbering and
   the normal form of block types); the whole-module model predicts the output exactly.
-* Not theorems (hence `…_partial`): that the observation glue around calls (instantiation, the
-  export script) commutes with the renumbering of the export/start/element operands, and that the
-  observation of a module does not depend on how uids are assigned.  Both are checked on every case:
+* Not theorems (hence `…_partial`): that the observation of a module does not depend on how uids
+  are assigned (a decoded module gets position = uid; the theorem speaks of the output re-indexed to
+  the input's uids), and that walrus's output *is* `ren (elide input)`.  Both are checked on every case:
   the driver request `rentie` evaluates the hypotheses of the renumbering theorem (`EnvRen`) on the
   real input/output pair with the maps the model computes, runs the output under both uid
   assignments, and the side-by-side execution oracle compares input and output end to end.
@@ -44,8 +45,8 @@ theorem elision_unobservable_calls (E : Env) (gas : Nat) (u : Nat) (args : List 
 /-- the observation of any script — instantiation (segments, start function), every call with
     carried-over state, host trace, exported state — is unchanged by elision -/
 theorem elision_unobservable (m : ModuleM) (E : Env) (gas seed rounds : Nat) :
-    observeWith m E.elide.ftab E.elide.usigs (invoke E.elide gas) seed rounds =
-    observeWith m E.ftab E.usigs (invoke E gas) seed rounds :=
+    observeWith m E.elide.resolve E.elide.usigs (invoke E.elide gas) seed rounds =
+    observeWith m E.resolve E.usigs (invoke E gas) seed rounds :=
   observe_elide m E gas seed rounds
 
 /-- **renumbering is unobservable**: if `E'` is `E` with its function indices, type indices, local
@@ -57,6 +58,17 @@ theorem renumbering_unobservable_calls {fρ yρ : Nat → Nat} {btρ : BT → BT
     {E' E : Env} (h : EnvRen fρ yρ btρ xρ E' E) (gas : Nat) (u : Nat) (args : List V) (st : Store) :
     invoke E' gas u args st = invoke E gas u args st := by
   rw [invoke_ren h]
+
+/-- **the round trip is unobservable**: if `E'` is the renumbering (`EnvRen`) of the *elided*
+    module, then the renumbered module — exports, start function, element items and `ref.func`
+    constants renumbered along — has exactly the observation of the original: same instantiation
+    outcome, same results and traps of every call of the script with state carried over, same host
+    trace, same exported state.  For every module, script, gas budget. -/
+theorem round_trip_unobservable {fρ yρ : Nat → Nat} {btρ : BT → BT} {xρ : Nat → Nat → Nat}
+    {E' E : Env} (h : EnvRen fρ yρ btρ xρ E' E.elide) (m : ModuleM) (gas seed rounds : Nat) :
+    observeWith (mapFM fρ m) E'.resolve E'.usigs (invoke E' gas) seed rounds =
+    observeWith m E.resolve E.usigs (invoke E gas) seed rounds :=
+  observe_ren_elide h m gas seed rounds
 
 /-- body-level forms, for any meaning of calls and loop re-entry that agrees on the two sides -/
 theorem round_trip_preserves_behaviour_partial (C : Ctx) (R' R : Rec) (h : RecRel R' R)
